@@ -101,6 +101,30 @@ def skeleton(body: str, patterns):
     return toks
 
 
+def pool_canon(toks):
+    """Canonical form of a pool skeleton: what matters is WHICH actions happen while the receiver lock is held and in which order
+    the actions follow each other — not whether the branch on the received message is a `match`, an `if let` or a `let … else`.
+    The closing brace of the block in which `lock` occurs becomes `unlock` (the guard is dropped there); every other brace and
+    the keywords `match` / `break` are dropped."""
+    out, depth, lock_depth = [], 0, None
+    for t in toks:
+        if t == "{":
+            depth += 1
+        elif t == "}":
+            if lock_depth is not None and depth == lock_depth:
+                out.append("unlock"); lock_depth = None
+            depth -= 1
+        elif t in ("match", "break"):
+            continue
+        else:
+            if t == "lock":
+                lock_depth = depth
+            out.append(t)
+    if lock_depth is not None:
+        out.append("unlock@end")
+    return out
+
+
 POOL_PATTERNS = [
     (r"\.lock\(\)", "lock"),
     (r"\.recv\(\)", "recv"),
@@ -109,6 +133,8 @@ POOL_PATTERNS = [
     (r"\bloop\b", "loop"),
     (r"\bmatch\b", "match"),
     (r"drop\(\s*self\.sender\.take\(\)\s*\)", "drop_sender"),
+    (r"self\.sender\s*=\s*None", "drop_sender"),
+    (r"self\.sender\.take\(\)\s*;", "drop_sender"),
     (r"\.join\(\)", "join"),
     (r"\.send\(", "send"),
     (r"thread::spawn", "spawn"),
@@ -305,9 +331,9 @@ def main():
     m = re.search(r"impl Worker\s*\{", tp)
     if not m:
         raise ExtractError("impl Worker")
-    L.append(lean_list("poolWorker", skeleton(fn_body(tp[m.end():], "new"), POOL_PATTERNS)))
-    L.append(lean_list("poolExecute", skeleton(fn_body(tp, "execute"), POOL_PATTERNS)))
-    L.append(lean_list("poolDrop", skeleton(fn_body(tp, "drop"), POOL_PATTERNS)))
+    L.append(lean_list("poolWorker", pool_canon(skeleton(fn_body(tp[m.end():], "new"), POOL_PATTERNS))))
+    L.append(lean_list("poolExecute", pool_canon(skeleton(fn_body(tp, "execute"), POOL_PATTERNS))))
+    L.append(lean_list("poolDrop", pool_canon(skeleton(fn_body(tp, "drop"), POOL_PATTERNS))))
     m = re.search(r"impl Task for EpollJob\s*\{", ep)
     if not m:
         raise ExtractError("impl Task for EpollJob")
